@@ -78,7 +78,15 @@ func (c *Collector) NonTrivial(sample any, parts ...any) {
 			c.capped = true
 		}
 	}
-	if sample != nil && c.nontriv >= c.nextSamp && len(c.samples) < maxSamples {
+	if c.nontriv >= c.nextSamp && len(c.samples) < maxSamples {
+		if sample == nil {
+			// no structured sample given: the printed identifying parts of the case are the sample
+			txt := fmt.Sprint(parts...)
+			if len(txt) > 600 {
+				txt = txt[:600] + "…"
+			}
+			sample = txt
+		}
 		c.samples = append(c.samples, sample)
 		c.nextSamp *= 7
 	}
